@@ -567,6 +567,7 @@ func main() {
 	c.Rule = "FULL PRODUCT for 1..3 resources of per-resource outcome (function ready flag x apply rejected as invalid by scripted admission) x explicit XR readiness {unset,true,false} x function conditions (none; system types Ready/Synced forged True with custom reason; custom types with claim target) x fatal variants, run 3 reconciles each through the real XR reconciler in Pipeline mode; P&T: full product of {ready, unready, invalid apply, render failure} for 1..3 templates; claims reconciled (both syncers) against an XR whose Ready condition is scripted through random True/False/absent sequences, read fresh or through a cache lagging 1..5 writes. Oracle: Ready=True => explicit-ready or (not explicit-unready and all ready); Synced=True => everything rendered and applied in that reconcile; system conditions never carry the function's reason/message; custom conditions not re-asserted in a fatal reconcile are Unknown; a claim Ready=True write follows an XR read served Ready=True in the same reconcile. distinct = the case; non-trivial = some resource not ready / not synced or a system-typed function condition."
 	c.Rule += " P&T readiness: every template carries a list of 1-3 readiness checks drawn from all seven types with a known verdict; an unready one has exactly one failing check at a random position."
 	c.Rule += " " + "A rejected apply is answered 422, no-matches-for-kind, 403 or 503."
+	c.Rule += " " + "P&T templates referencing a PatchSet, provider-reported Ready=True on composed resources, Required combine patches; functions forging conditions through the desired XR status combined with a failing connection publish."
 	c.Assumptions = []string{"sim admission returns 422 Invalid for kind NopInvalid", "functions are scripted gRPC servers"}
 	c.Floor = 100
 	c.Exhaustive(true)
